@@ -213,7 +213,7 @@ theorem avgStep_rat (d : Rat) (prev cur : Int) :
 theorem avgTrunc_bounds (d : Rat) (hd : 1 ≤ d) (us : List Int) (hu : ∀ u ∈ us, 0 ≤ u) :
     0 ≤ avgTrunc d us ∧ ((avgTrunc d us : Int) : Rat) ≤ avgExact d us ∧
       avgExact d us < ((avgTrunc d us : Int) : Rat) + d := by
-  have hd0 : (0 : Rat) < d := Rat.lt_of_lt_of_le (by decide) hd
+  have hd0 : (0 : Rat) < d := by grind
   have hr0 : 0 ≤ (d - 1) / d := rat_div_nonneg ((Rat.le_iff_sub_nonneg 1 d).1 hd) hd0
   have hdr : d * ((d - 1) / d) = d - 1 := by
     rw [Rat.mul_comm]; exact Rat.div_mul_cancel (Rat.ne_of_gt hd0)
@@ -221,7 +221,7 @@ theorem avgTrunc_bounds (d : Rat) (hd : 1 ≤ d) (us : List Int) (hu : ∀ u ∈
   | nil =>
     refine ⟨Int.le_refl 0, ?_, ?_⟩
     · simp [avgTrunc, avgExact]
-    · simpa [avgTrunc, avgExact] using hd0
+    · simp only [avgTrunc, avgExact]; grind
   | cons u us ih =>
     obtain ⟨ht0, hte, het⟩ := ih (fun x hx => hu x (by simp [hx]))
     have hu0 : (0 : Rat) ≤ (u : Rat) := Rat.intCast_nonneg.2 (hu u (by simp))
@@ -285,5 +285,402 @@ theorem ioCost_eq_sum (cfg : Params Rat) (stats : List DevStat) :
   rw [ioCost_fold, rat_zero, Rat.zero_add]
 
 end IoCost
+
+/-! ## `Res` plumbing -/
+
+theorem Res.bind_eq_ok {β γ : Type} {r : Res β} {f : β → Res γ} {v : γ} :
+    r.bind f = .ok v ↔ ∃ a, r = .ok a ∧ f a = .ok v := by
+  cases r <;> simp [Res.bind]
+
+theorem Res.map_eq_ok {β γ : Type} {r : Res β} {f : β → γ} {v : γ} :
+    r.map f = .ok v ↔ ∃ a, r = .ok a ∧ f a = v := by
+  cases r <;> simp [Res.map, Res.bind]
+
+/-! ## effective swap: minimum / maximum over the ancestor chain (on the reference) -/
+
+section Swap
+variable {α : Type} [Num α]
+
+/-- `q` is `p` or one of its ancestors, the root excluded -/
+def OnChain (q p : RPath) : Prop := q <:+ p ∧ q ≠ []
+
+theorem refEffSwapMax_cons (e : RefEnv α) (n : Str) (ps : RPath) (v : Int)
+    (h : refEffSwapMax e (n :: ps) = .ok v) :
+    ∃ pm sm, refEffSwapMax e ps = .ok pm ∧ refInt e (n :: ps) .swapMax = .ok sm ∧ v = min pm sm := by
+  simp only [refEffSwapMax] at h
+  obtain ⟨_, _, h⟩ := Res.bind_eq_ok.1 h
+  obtain ⟨pm, hpm, h⟩ := Res.bind_eq_ok.1 h
+  obtain ⟨sm, hsm, h⟩ := Res.bind_eq_ok.1 h
+  exact ⟨pm, sm, hpm, hsm, by injection h with h; exact h.symm⟩
+
+/-- effective_swap_max ≤ SwapTotal and ≤ memory.swap.max of every level of the chain -/
+theorem refEffSwapMax_le (e : RefEnv α) : ∀ (p : RPath) (v : Int), refEffSwapMax e p = .ok v →
+    v ≤ wrap64 e.sys.swaptotal ∧ ∀ q, OnChain q p → ∀ m, refInt e q .swapMax = .ok m → v ≤ m := by
+  intro p
+  induction p with
+  | nil =>
+    intro v h
+    simp only [refEffSwapMax] at h
+    injection h with h
+    subst h
+    refine ⟨Int.le_refl _, ?_⟩
+    intro q hq
+    exact absurd (List.suffix_nil.1 hq.1) hq.2
+  | cons n ps ih =>
+    intro v h
+    obtain ⟨pm, sm, hpm, hsm, rfl⟩ := refEffSwapMax_cons e n ps v h
+    obtain ⟨h1, h2⟩ := ih pm hpm
+    refine ⟨by omega, ?_⟩
+    intro q hq m hm
+    rcases List.suffix_cons_iff.1 hq.1 with heq | hsuf
+    · subst heq
+      rw [hsm] at hm
+      injection hm with hm
+      omega
+    · have := h2 q ⟨hsuf, hq.2⟩ m hm
+      omega
+
+/-- ... and it is one of those values: the minimum -/
+theorem refEffSwapMax_attained (e : RefEnv α) : ∀ (p : RPath) (v : Int), refEffSwapMax e p = .ok v →
+    v = wrap64 e.sys.swaptotal ∨ ∃ q, OnChain q p ∧ refInt e q .swapMax = .ok v := by
+  intro p
+  induction p with
+  | nil =>
+    intro v h
+    simp only [refEffSwapMax] at h
+    injection h with h
+    exact Or.inl h.symm
+  | cons n ps ih =>
+    intro v h
+    obtain ⟨pm, sm, hpm, hsm, rfl⟩ := refEffSwapMax_cons e n ps v h
+    by_cases hle : pm ≤ sm
+    · have : min pm sm = pm := by omega
+      rw [this]
+      rcases ih pm hpm with h1 | ⟨q, hq, hqv⟩
+      · exact Or.inl h1
+      · exact Or.inr ⟨q, ⟨List.IsSuffix.trans hq.1 (List.suffix_cons n ps), hq.2⟩, hqv⟩
+    · have : min pm sm = sm := by omega
+      rw [this]
+      exact Or.inr ⟨n :: ps, ⟨List.suffix_refl _, by simp⟩, hsm⟩
+
+theorem refEffSwapFree_cons (e : RefEnv α) (n : Str) (ps : RPath) (v : Int)
+    (h : refEffSwapFree e (n :: ps) = .ok v) :
+    ∃ sm su pf, refInt e (n :: ps) .swapMax = .ok sm ∧ refInt e (n :: ps) .swapUsage = .ok su ∧
+      refEffSwapFree e ps = .ok pf ∧ v = min pf (sm - su) := by
+  simp only [refEffSwapFree] at h
+  obtain ⟨sm, hsm, h⟩ := Res.bind_eq_ok.1 h
+  obtain ⟨su, hsu, h⟩ := Res.bind_eq_ok.1 h
+  obtain ⟨_, _, h⟩ := Res.bind_eq_ok.1 h
+  obtain ⟨pf, hpf, h⟩ := Res.bind_eq_ok.1 h
+  exact ⟨sm, su, pf, hsm, hsu, hpf, by injection h with h; exact h.symm⟩
+
+/-- effective_swap_free ≤ (SwapTotal − SwapUsed) and ≤ (max − usage) of every level of the chain -/
+theorem refEffSwapFree_le (e : RefEnv α) : ∀ (p : RPath) (v : Int), refEffSwapFree e p = .ok v →
+    v ≤ wrap64 ((e.sys.swaptotal : Int) - e.sys.swapused) ∧
+    ∀ q, OnChain q p → ∀ m u, refInt e q .swapMax = .ok m → refInt e q .swapUsage = .ok u → v ≤ m - u := by
+  intro p
+  induction p with
+  | nil =>
+    intro v h
+    simp only [refEffSwapFree] at h
+    injection h with h
+    subst h
+    refine ⟨Int.le_refl _, ?_⟩
+    intro q hq
+    exact absurd (List.suffix_nil.1 hq.1) hq.2
+  | cons n ps ih =>
+    intro v h
+    obtain ⟨sm, su, pf, hsm, hsu, hpf, rfl⟩ := refEffSwapFree_cons e n ps v h
+    obtain ⟨h1, h2⟩ := ih pf hpf
+    refine ⟨by omega, ?_⟩
+    intro q hq m u hm hu
+    rcases List.suffix_cons_iff.1 hq.1 with heq | hsuf
+    · subst heq
+      rw [hsm] at hm
+      rw [hsu] at hu
+      injection hm with hm
+      injection hu with hu
+      omega
+    · have := h2 q ⟨hsuf, hq.2⟩ m u hm hu
+      omega
+
+theorem refEffSwapFree_attained (e : RefEnv α) : ∀ (p : RPath) (v : Int), refEffSwapFree e p = .ok v →
+    v = wrap64 ((e.sys.swaptotal : Int) - e.sys.swapused) ∨
+    ∃ q m u, OnChain q p ∧ refInt e q .swapMax = .ok m ∧ refInt e q .swapUsage = .ok u ∧ v = m - u := by
+  intro p
+  induction p with
+  | nil =>
+    intro v h
+    simp only [refEffSwapFree] at h
+    injection h with h
+    exact Or.inl h.symm
+  | cons n ps ih =>
+    intro v h
+    obtain ⟨sm, su, pf, hsm, hsu, hpf, rfl⟩ := refEffSwapFree_cons e n ps v h
+    by_cases hle : pf ≤ sm - su
+    · have : min pf (sm - su) = pf := by omega
+      rw [this]
+      rcases ih pf hpf with h1 | ⟨q, m, u, hq, hm, hu, hv⟩
+      · exact Or.inl h1
+      · exact Or.inr ⟨q, m, u, ⟨List.IsSuffix.trans hq.1 (List.suffix_cons n ps), hq.2⟩, hm, hu, hv⟩
+    · have : min pf (sm - su) = sm - su := by omega
+      rw [this]
+      exact Or.inr ⟨n :: ps, sm, su, ⟨List.suffix_refl _, by simp⟩, hsm, hsu, rfl⟩
+
+/-- the utilisation recurrence: 0 when this level's `memory.swap.max` is 0 (whatever the ancestors say),
+otherwise the larger of the local ratio and the parent's value -/
+theorem refEffSwapUtil_cons (e : RefEnv α) (n : Str) (ps : RPath) (sm : Int)
+    (hsm : refInt e (n :: ps) .swapMax = .ok sm) :
+    refEffSwapUtil e (n :: ps) =
+      if sm = 0 then .ok zero else
+        (refInt e (n :: ps) .swapUsage).bind fun su => (refOpen e ps).bind fun _ =>
+          (refEffSwapUtil e ps).bind fun pu => .ok (nmax pu (localUtil su sm)) := by
+  simp only [refEffSwapUtil, hsm, Res.bind]
+
+theorem refEffSwapUtil_root (e : RefEnv α) :
+    refEffSwapUtil e [] = if e.sys.swaptotal = 0 then .ok zero
+      else .ok (div (ofNat e.sys.swapused) (ofNat e.sys.swaptotal)) := rfl
+
+end Swap
+
+/-! ## the per-tick cache: values only ever appear, never change (until `refresh`) -/
+
+section Cache
+variable {α : Type} [Num α]
+
+/-- `st'` extends `st`: same system context; every context of `st` is still there with the same held
+directory and archive, and every value it had cached is still cached with the same value -/
+def Le (st st' : OSt α) : Prop :=
+  st'.sys = st.sys ∧
+  ∀ p c, st.ctxs p = some c → ∃ c', st'.ctxs p = some c' ∧ c'.dir = c.dir ∧ c'.arch = c.arch ∧
+    ∀ f v, c.data f = some v → c'.data f = some v
+
+theorem Le.refl (st : OSt α) : Le st st := ⟨rfl, fun _ c h => ⟨c, h, rfl, rfl, fun _ _ h => h⟩⟩
+
+theorem Le.trans {a b c : OSt α} (h1 : Le a b) (h2 : Le b c) : Le a c := by
+  refine ⟨h2.1.trans h1.1, ?_⟩
+  intro p ca hca
+  obtain ⟨cb, hcb, hd1, ha1, hv1⟩ := h1.2 p ca hca
+  obtain ⟨cc, hcc, hd2, ha2, hv2⟩ := h2.2 p cb hcb
+  exact ⟨cc, hcc, hd2.trans hd1, ha2.trans ha1, fun f v h => hv2 f v (hv1 f v h)⟩
+
+theorem cached_of_le {st st' : OSt α} (h : Le st st') {p : RPath} {f : Field} {v : Val α}
+    (hc : cached st p f = some v) : cached st' p f = some v := by
+  unfold cached at hc ⊢
+  cases hp : st.ctxs p with
+  | none => simp [hp] at hc
+  | some c =>
+    simp only [hp, Option.bind_some] at hc
+    obtain ⟨c', hc', _, _, hv⟩ := h.2 p c hp
+    simp [hc', hv f v hc]
+
+/-- an action that only ever extends the cache -/
+def Infl {β : Type} (a : Act α β) : Prop := ∀ st, Le st (a st).2
+
+theorem infl_pure {β : Type} (r : Res β) : Infl (Act.pure r : Act α β) := fun st => Le.refl st
+theorem infl_read {β : Type} (f : OSt α → Res β) : Infl (Act.read f) := fun st => Le.refl st
+
+theorem infl_bind {β γ : Type} {a : Act α β} {k : β → Act α γ} (ha : Infl a) (hk : ∀ b, Infl (k b)) :
+    Infl (a.bind k) := by
+  intro st
+  unfold Act.bind
+  have h1 := ha st
+  cases hr : a st with
+  | mk r st1 =>
+    rw [hr] at h1
+    cases r with
+    | ok b => exact Le.trans h1 (hk b st1)
+    | unavailable => exact h1
+    | crash c => exact h1
+
+theorem infl_getD {β : Type} {a : Act α β} (d : β) (ha : Infl a) : Infl (a.getD d) := by
+  intro st
+  unfold Act.getD
+  have h1 := ha st
+  cases hr : a st with
+  | mk r st1 =>
+    rw [hr] at h1
+    cases r <;> exact h1
+
+theorem infl_bindInt {γ : Type} {a : Act α (Val α)} {k : Int → Act α γ} (ha : Infl a) (hk : ∀ b, Infl (k b)) :
+    Infl (a.bindInt k) :=
+  infl_bind ha fun _ => infl_bind (infl_pure _) hk
+
+theorem infl_bindNum {γ : Type} {a : Act α (Val α)} {k : α → Act α γ} (ha : Infl a) (hk : ∀ b, Infl (k b)) :
+    Infl (a.bindNum k) :=
+  infl_bind ha fun _ => infl_bind (infl_pure _) hk
+
+theorem le_setField (st st' : OSt α) (p : RPath) (f : Field) (v : Val α) (h : Le st st')
+    (hnone : cached st p f = none) : Le st (setField st' p f v) := by
+  refine ⟨h.1, ?_⟩
+  intro q c hq
+  obtain ⟨c', hc', hd, ha, hv⟩ := h.2 q c hq
+  by_cases e : q = p
+  · subst e
+    refine ⟨{ c' with data := fun g => if g = f then some v else c'.data g }, ?_, hd, ha, ?_⟩
+    · simp [setField, hc']
+    · intro g x hg
+      by_cases eg : g = f
+      · subst eg
+        simp [cached, hq, hg] at hnone
+      · simp [eg, hv g x hg]
+  · exact ⟨c', by simp [setField, e, hc'], hd, ha, hv⟩
+
+/-- the `PROXY` macro keeps every value obtained before -/
+theorem infl_memo (p : RPath) (f : Field) {compute : Act α (Val α)} (hc : Infl compute) :
+    Infl (memo p f compute) := by
+  intro st
+  unfold memo
+  cases hcache : cached st p f with
+  | some v => exact Le.refl st
+  | none =>
+    have h1 := hc st
+    cases hr : compute st with
+    | mk r st1 =>
+      rw [hr] at h1
+      cases r with
+      | ok v => exact le_setField st st1 p f v h1 hcache
+      | unavailable => exact h1
+      | crash c => exact h1
+
+theorem infl_addToCache (w : World) (p : RPath) : Infl (addToCache (α := α) w p) := by
+  intro st
+  unfold addToCache
+  cases hp : st.ctxs p with
+  | some c => exact Le.refl st
+  | none =>
+    cases w.openDir p with
+    | none => exact Le.refl st
+    | some inc =>
+      refine ⟨rfl, ?_⟩
+      intro q c hq
+      have : q ≠ p := by intro e; subst e; rw [hp] at hq; cases hq
+      exact ⟨c, by simp [this, hq], rfl, rfl, fun _ _ h => h⟩
+
+theorem infl_getPrim (w : World) (p : RPath) (f : Field) : Infl (getPrim (α := α) w p f) :=
+  infl_memo p f (infl_read _)
+
+theorem infl_getRaw (w : World) (p : RPath) : Infl (getRaw (α := α) w p) :=
+  infl_bindInt (infl_getPrim w p _) fun _ => infl_bindInt (infl_getPrim w p _) fun _ =>
+    infl_bindInt (infl_getPrim w p _) fun _ => infl_pure _
+
+theorem infl_sumRaw (w : World) (pp : RPath) (names : List Str) : Infl (sumRaw (α := α) w pp names) := by
+  induction names with
+  | nil => exact infl_pure _
+  | cons nm rest ih =>
+    unfold sumRaw
+    refine infl_bind (infl_getD 0 ?_) fun _ => infl_bind ih fun _ => infl_pure _
+    cases w.openDir (nm :: pp) with
+    | none => exact infl_pure _
+    | some _ =>
+      exact infl_bind (infl_addToCache w _) fun _ => infl_bindInt (infl_getRaw w _) fun _ => infl_pure _
+
+theorem infl_getEffSwapMax (w : World) (p : RPath) : Infl (getEffSwapMax (α := α) w p) := by
+  induction p with
+  | nil => exact infl_memo _ _ (infl_read _)
+  | cons n ps ih =>
+    unfold getEffSwapMax
+    exact infl_memo _ _ (infl_bind (infl_addToCache w ps) fun _ => infl_bindInt ih fun _ =>
+      infl_bindInt (infl_getPrim w _ _) fun _ => infl_pure _)
+
+theorem infl_getEffSwapFree (w : World) (p : RPath) : Infl (getEffSwapFree (α := α) w p) := by
+  induction p with
+  | nil => exact infl_memo _ _ (infl_read _)
+  | cons n ps ih =>
+    unfold getEffSwapFree
+    exact infl_memo _ _ (infl_bindInt (infl_getPrim w _ _) fun _ => infl_bindInt (infl_getPrim w _ _) fun _ =>
+      infl_bind (infl_addToCache w ps) fun _ => infl_bindInt ih fun _ => infl_pure _)
+
+theorem infl_getEffSwapUtil (w : World) (p : RPath) : Infl (getEffSwapUtil (α := α) w p) := by
+  induction p with
+  | nil => exact infl_memo _ _ (infl_read _)
+  | cons n ps ih =>
+    unfold getEffSwapUtil
+    refine infl_memo _ _ (infl_bindInt (infl_getPrim w _ _) fun sm => ?_)
+    by_cases h : sm = 0
+    · simp only [h, if_true]; exact infl_pure _
+    · simp only [h, if_false]
+      exact infl_bindInt (infl_getPrim w _ _) fun _ => infl_bind (infl_addToCache w ps) fun _ =>
+        infl_bindNum ih fun _ => infl_pure _
+
+theorem infl_getMemProt (w : World) : ∀ p : RPath, Infl (getMemProt (α := α) w p)
+  | [] => by unfold getMemProt; exact infl_memo _ _ (infl_getPrim w _ _)
+  | [n] => by unfold getMemProt; exact infl_memo _ _ (infl_getRaw w _)
+  | n :: m :: ps => by
+    have ih := infl_getMemProt w (m :: ps)
+    unfold getMemProt
+    refine infl_memo _ _ (infl_bind (infl_addToCache w _) fun _ => infl_bind (infl_getPrim w _ _) fun _ =>
+      infl_bind (infl_pure _) fun names => infl_bind (infl_sumRaw w _ names) fun sum => ?_)
+    by_cases h : sum = 0
+    · simp only [h, if_true]; exact infl_pure _
+    · simp only [h, if_false]
+      exact infl_bindInt (infl_getRaw w _) fun _ => infl_bindInt ih fun _ => infl_pure _
+
+variable (cfg : Params α)
+
+theorem infl_getIoCostCum (w : World) (p : RPath) : Infl (getIoCostCum cfg w p) :=
+  infl_memo _ _ (infl_bind (infl_getPrim w _ _) fun _ => infl_bind (infl_pure _) fun _ => infl_pure _)
+
+theorem infl_getPgScanCum (w : World) (p : RPath) : Infl (getPgScanCum (α := α) w p) := by
+  refine infl_memo _ _ (infl_bind (infl_getPrim w _ _) fun _ => infl_bind (infl_pure _) fun m => ?_)
+  cases kvLookup m pgscanKey <;> exact infl_pure _
+
+theorem infl_getAverageUsage (w : World) (p : RPath) : Infl (getAverageUsage cfg w p) :=
+  infl_memo _ _ (infl_bindInt (infl_getPrim w _ _) fun _ => infl_read _)
+
+theorem infl_getIoCostRate (w : World) (p : RPath) : Infl (getIoCostRate cfg w p) :=
+  infl_memo _ _ (infl_bindNum (infl_getIoCostCum cfg w p) fun _ => infl_read _)
+
+theorem infl_getPgScanRate (w : World) (p : RPath) : Infl (getPgScanRate (α := α) w p) :=
+  infl_memo _ _ (infl_bindInt (infl_getPgScanCum w p) fun _ => infl_read _)
+
+theorem infl_getField (w : World) (p : RPath) (f : Field) : Infl (getField cfg w p f) := by
+  cases f <;> first
+    | exact infl_getPrim w p _
+    | exact infl_getEffSwapMax w p
+    | exact infl_getEffSwapFree w p
+    | exact infl_getEffSwapUtil w p
+    | exact infl_getMemProt w p
+    | exact infl_getIoCostCum cfg w p
+    | exact infl_getPgScanCum w p
+    | exact infl_getAverageUsage cfg w p
+    | exact infl_getIoCostRate cfg w p
+    | exact infl_getPgScanRate w p
+
+theorem infl_statKey (w : World) (p : RPath) (key : String) : Infl (statKey (α := α) w p key) := by
+  refine infl_bind (infl_getPrim w _ _) fun _ => infl_bind (infl_pure _) fun m => ?_
+  cases kvLookup m (s key) <;> exact infl_pure _
+
+/-- every public accessor only extends the cache, whatever the world looks like when it is called -/
+theorem infl_getAcc (w : World) (p : RPath) (a : Acc) : Infl (getAcc cfg w p a) := by
+  cases a with
+  | field f => exact infl_getField cfg w p f
+  | anon => exact infl_statKey w p _
+  | file => exact infl_statKey w p _
+  | shmem => exact infl_statKey w p _
+  | effUsage scale adj =>
+    exact infl_bindInt (infl_getPrim w _ _) fun _ => infl_bindInt (infl_getMemProt w p) fun _ => infl_pure _
+  | growth =>
+    refine infl_bindInt (infl_getPrim w _ _) fun _ => infl_bindInt (infl_getAverageUsage cfg w p) fun avg => ?_
+    by_cases h : avg = 0
+    · simp only [h, if_true]; exact infl_pure _
+    · simp only [h, if_false]; exact infl_pure _
+
+theorem memo_cached (p : RPath) (f : Field) (compute : Act α (Val α)) (st : OSt α) (v : Val α)
+    (h : cached st p f = some v) : memo p f compute st = (.ok v, st) := by
+  simp [memo, h]
+
+/-- a cached field is returned as it is, without looking at the world -/
+theorem getField_cached (w : World) (p : RPath) (f : Field) (st : OSt α) (v : Val α)
+    (h : cached st p f = some v) : getField cfg w p f st = (.ok v, st) := by
+  cases f
+  case effSwapMax => cases p <;> (unfold getField getEffSwapMax; exact memo_cached _ _ _ st v h)
+  case effSwapFree => cases p <;> (unfold getField getEffSwapFree; exact memo_cached _ _ _ st v h)
+  case effSwapUtil => cases p <;> (unfold getField getEffSwapUtil; exact memo_cached _ _ _ st v h)
+  case memoryProtection =>
+    rcases p with _ | ⟨n, _ | ⟨m, ps⟩⟩ <;> (unfold getField getMemProt; exact memo_cached _ _ _ st v h)
+  all_goals exact memo_cached _ _ _ st v h
+
+end Cache
 
 end OomdModel.CgStats
